@@ -422,6 +422,12 @@ def run_e4(cfg, ctx):
         ctx.notes.append("E4 %r: TLC did not finish within its time limit" % ((cfg["n"], cfg["pool"], cfg["max_tasks"]),))
         ctx.outcomes["e4:tlc-incomplete"] += 1
         return
+    if any(pr[0] == "layout" for pr in r["problems"]):
+        ctx.capped = True
+        ctx.notes.append("E4 %r: conformance replay not run - %s" % ((cfg["n"], cfg["pool"], cfg["max_tasks"]),
+                                                                      next(pr[1] for pr in r["problems"] if pr[0] == "layout")))
+        ctx.outcomes["e4:abstraction-does-not-fit"] += 1
+        return
     ctx.evals += r["paths"] + 1
     ctx.states += r["tlc_distinct"]
     ctx.transitions += r["tlc_generated"]
